@@ -1000,7 +1000,7 @@ fn l_is_free_orders() {
     l_is_free_orders_body::<1, NH1>()
 }
 
-// @h props=C01,C02,C12,C09,C18 tier=quick geom=1 tgeom=2,4 panics=C09 mem=C18
+// @h props=C01,C02,C12,C09,C18 tier=quick geom=1 tgeom=2 panics=C09 mem=C18
 #[kani::proof]
 #[kani::unwind(18)]
 fn l_get_o0() {
@@ -1117,7 +1117,7 @@ fn l_get_t2_o10() {
     l_get_body::<2, NH2>(10)
 }
 
-// @h props=C02 tier=quick geom=1 tgeom=2,4 panics=C09 mem=C18
+// @h props=C02 tier=quick geom=1 tgeom=2 panics=C09 mem=C18
 #[kani::proof]
 #[kani::unwind(18)]
 fn l_get_at_o0() {
@@ -1164,7 +1164,7 @@ fn l_get_at_o9() {
     l_get_at_body::<1, NH1>(9)
 }
 
-// @h props=C01,C02 tier=thorough geom=1,2,4 tgeom= panics=C09 mem=C18
+// @h props=C01,C02 tier=thorough geom=1,2 tgeom= panics=C09 mem=C18
 #[kani::proof]
 #[kani::unwind(18)]
 fn l_get_at_o8() {
@@ -1236,7 +1236,7 @@ fn l_get_at_t2_o10() {
     l_get_at_body::<2, NH2>(10)
 }
 
-// @h props=C02,C09,C18 tier=quick geom=1 tgeom=2,4 panics=C09 mem=C18
+// @h props=C02,C09,C18 tier=quick geom=1 tgeom=2 panics=C09 mem=C18
 #[kani::proof]
 #[kani::unwind(18)]
 fn l_put_o0() {
@@ -1278,7 +1278,7 @@ fn l_put_o9() {
     l_put_body::<1, NH1>(9)
 }
 
-// @h props=C02 tier=thorough geom=1,2,4 tgeom= panics=C09 mem=C18
+// @h props=C02 tier=thorough geom=1,2 tgeom= panics=C09 mem=C18
 #[kani::proof]
 #[kani::unwind(18)]
 fn l_put_o7() {
